@@ -152,3 +152,31 @@ pub mod encrypt {
         -> (r: Result<(), EncryptError>)
     { unimplemented!() }
 }
+
+// --- std::env::var and passterm as the password prompts use them (rule R1: std::env:: -> venv::)
+/// the value of an environment variable exactly as the user supplied it
+pub uninterp spec fn env_value(name: Seq<char>) -> Seq<char>;
+pub mod venv {
+    use vstd::prelude::*;
+    use super::*;
+    pub struct OsStr0;
+    pub enum VarError { NotPresent, NotUnicode(OsStr0) }
+    #[verifier::external_body]
+    pub fn var(name: &str) -> (r: Result<String, VarError>)
+        ensures r matches Ok(s) ==> s@ == env_value(name@)
+    { unimplemented!() }
+}
+pub mod passterm {
+    use vstd::prelude::*;
+    pub use super::{isatty, Stream};
+    pub struct Error;
+    #[verifier::external_body]
+    pub fn prompt_password_tty(prompt: Option<&str>) -> (r: Result<String, Error>) { unimplemented!() }
+    #[verifier::external_body]
+    pub fn prompt_password_stdin(prompt: Option<&str>, s: Stream) -> (r: Result<String, Error>) { unimplemented!() }
+}
+impl From<passterm::Error> for AnyhowError { #[verifier::external_body] fn from(e: passterm::Error) -> AnyhowError { AnyhowError } }
+impl vstd::std_specs::convert::FromSpecImpl<passterm::Error> for AnyhowError {
+    open spec fn obeys_from_spec() -> bool { false }
+    uninterp spec fn from_spec(e: passterm::Error) -> AnyhowError;
+}
